@@ -1,15 +1,15 @@
 #!/bin/bash
 # seed_eval_iso.sh <patch.diff> <PROP> [more PROPs...]: like seed_eval.sh, but on a scratch worktree
-# of /repo (/tmp/wt-eval) and a scratch copy of /verif (/tmp/verif-eval) whose harness depends on
+# of /repo (/tmp/wt-eval$EVAL_SLOT) and a scratch copy of /verif (/tmp/verif-eval$EVAL_SLOT; several slots can run side by side) whose harness depends on
 # that worktree, so that neither /repo, nor /verif/evidence, nor a check running in the background
 # is disturbed.  Prints one line per check: DETECTED / MISSED / BROKEN.
 PATCH="$1"; shift
-WT=/tmp/wt-eval; VE=/tmp/verif-eval
+SLOT="${EVAL_SLOT:-}"; WT=/tmp/wt-eval$SLOT; VE=/tmp/verif-eval$SLOT
 if [ ! -d $WT ]; then git -C /repo worktree add -q --detach $WT HEAD || exit 2; fi
 git -C $WT checkout -q -- . && git -C $WT checkout -q --detach "$(git -C /repo rev-parse HEAD)" || exit 2
 mkdir -p $VE
 rsync -a --delete --exclude .git --exclude 'harness/target' --exclude 'harness/fuzz/target' --exclude failures --exclude 'harness/build.log' /verif/ $VE/
-sed -i 's#path = "/repo"#path = "/tmp/wt-eval"#' $VE/harness/Cargo.toml
+sed -i "s#path = \"/repo\"#path = \"$WT\"#" $VE/harness/Cargo.toml
 git -C $WT apply "$PATCH" || { echo "patch does not apply"; exit 2; }
 for p in "$@"; do
   s=$(date +%s)
